@@ -119,7 +119,19 @@ func findSeenSets(fn *ssa.Function) []seenSet {
 				continue
 			}
 			s := seenSet{mk: mk}
+			vals := []ssa.Value{mk}
 			if refs := mk.Referrers(); refs != nil {
+				for _, r := range *refs {
+					if ph, ok := r.(*ssa.Phi); ok {
+						vals = append(vals, ph)
+					}
+				}
+			}
+			for _, v := range vals {
+				refs := v.Referrers()
+				if refs == nil {
+					continue
+				}
 				for _, r := range *refs {
 					switch y := r.(type) {
 					case *ssa.Lookup:
@@ -137,6 +149,21 @@ func findSeenSets(fn *ssa.Function) []seenSet {
 		}
 	}
 	return out
+}
+
+// is reports whether v denotes this set (the map itself or a phi merging it with nil).
+func (s seenSet) is(v ssa.Value) bool {
+	if v == ssa.Value(s.mk) {
+		return true
+	}
+	if ph, ok := v.(*ssa.Phi); ok {
+		for _, e := range ph.Edges {
+			if e == ssa.Value(s.mk) {
+				return true
+			}
+		}
+	}
+	return false
 }
 
 func runC06(c *Ctx) {
